@@ -308,7 +308,7 @@ class Resolver:
             return "__init__.py"
         if modname.startswith("circuitgraph."):
             m = modname[len("circuitgraph."):]
-            return MODULES.get(m)
+            return MODULES.get(m) or self.repo.module_rel(modname)
         return None
 
     def _lookup_in_file(self, rel, name, depth=0):
@@ -322,10 +322,14 @@ class Resolver:
             return ("class", rel, name)
         # re-export (parsing/__init__.py)
         for st in self.repo.tree[rel].body:
-            if isinstance(st, ast.ImportFrom) and st.module:
+            if isinstance(st, ast.ImportFrom) and (st.module or st.level):
                 for al in st.names:
                     if (al.asname or al.name) == name:
-                        f = self._mod_file(st.module)
+                        f = self.repo.module_rel(st.module, st.level, rel) if st.level else self._mod_file(st.module)
+                        if st.level and f and f.endswith("__init__.py"):
+                            sub = self.repo.imported_names(rel).get(name)
+                            if sub and sub[0] == "module":
+                                return ("module", sub[1])
                         if f == "__init__.py":
                             return self.pkg_exports.get(al.name)
                         r = self._lookup_in_file(f, al.name, depth + 1)
@@ -364,12 +368,20 @@ class Resolver:
                         f = self._mod_file(a.name)
                         if f and a.asname:
                             al[a.asname] = ("module", f)
-            elif isinstance(st, ast.ImportFrom) and st.module:
-                f = self._mod_file(st.module)
+            elif isinstance(st, ast.ImportFrom) and (st.module or st.level):
+                f = self.repo.module_rel(st.module, st.level, rel) if st.level else self._mod_file(st.module)
                 if f is None:
                     continue
                 for a in st.names:
-                    r = self._lookup_in_file(f, a.name)
+                    r = None
+                    if f.endswith("__init__.py"):  # `from . import _helpers`, `from circuitgraph import tx`: a module of the package
+                        d = f[: -len("__init__.py")]
+                        for sub in (d + a.name + ".py", d + a.name + "/__init__.py"):
+                            if sub in self.repo.tree:
+                                r = ("module", sub)
+                                break
+                    if r is None:
+                        r = self._lookup_in_file(f, a.name)
                     if r is None and st.module == "circuitgraph" and a.name in MODULES:
                         r = ("module", MODULES[a.name])
                     if r:
@@ -433,11 +445,39 @@ def kind_from_doc(typ):
     return None
 
 
+class _AliasDict(dict):
+    """Table keyed by (file, qualified name); an inherited method's key `(file, 'Circuit.m')` answers with the entry of the
+    function that defines it (`(file of the mixin, 'Mixin.m')`)."""
+
+    def __init__(self, d, aliases):
+        super().__init__(d)
+        self._aliases = aliases
+
+    def __missing__(self, k):
+        if k in self._aliases and dict.__contains__(self, self._aliases[k]):
+            return dict.__getitem__(self, self._aliases[k])
+        raise KeyError(k)
+
+    def get(self, k, default=None):
+        try:
+            return self[k]
+        except KeyError:
+            return default
+
+    def __contains__(self, k):
+        return dict.__contains__(self, k) or (k in self._aliases and dict.__contains__(self, self._aliases[k]))
+
+
 class Analyzer:
     def __init__(self, repo):
         self.repo = repo
         self.res = Resolver(repo)
-        self.summ = {k: Summary(fi) for k, fi in repo.funcs.items()}
+        self.summ = _AliasDict({k: Summary(fi) for k, fi in repo.funcs.items() if k not in repo.inherited}, repo.inherited)
+        # a class of the package that Circuit / BlackBox inherits from (a mixin, possibly in its own module) holds methods of that class
+        self.class_kind = {}
+        for top in ("Circuit", "BlackBox"):
+            for (r_, c_) in repo.class_mro.get(("circuit.py", top), [("circuit.py", top)]):
+                self.class_kind.setdefault((r_, c_), top)
         self.observed_kinds = {}
         self.inferred_kinds = {}
         self.module_const_fn = {}
@@ -447,17 +487,19 @@ class Analyzer:
         self.boundmethods = {}  # id(Attribute node) -> (receiver value, method name): `c.set_output` used as a value
         self.class_methods = {}
         for (rel, q), fi in repo.funcs.items():
-            if fi.cls and q.count(".") == 1:
+            if fi.cls and q.count(".") == 1 and (rel, q) not in repo.inherited:
                 self.class_methods.setdefault(fi.node.name, []).append(fi)
-        self.param_kinds = {}
+        self.param_kinds = _AliasDict({}, repo.inherited)
         for k, fi in repo.funcs.items():
+            if k in repo.inherited:
+                continue
             doc = docstring_param_types(fi.node)
             pk = {}
             params = func_params(fi.node)
             for p in params:
                 pk[p] = kind_from_doc(doc.get(p))
             if fi.cls and params and params[0] == "self":
-                pk["self"] = fi.cls if fi.cls in ("Circuit", "BlackBox") else None
+                pk["self"] = self.class_kind.get((fi.file, fi.cls))
             self.param_kinds[k] = pk
         self.notes = []
         self.call_sites = 0
@@ -1691,7 +1733,7 @@ class FuncAnalysis:
     def candidates(self, recv, mname):
         meths = self.an.class_methods.get(mname, [])
         if recv.kind in ("Circuit", "BlackBox"):
-            c = [m for m in meths if m.cls == recv.kind]
+            c = [m for m in meths if self.an.class_kind.get((m.file, m.cls)) == recv.kind]
             return c, bool(c)
         if recv.kind in ("Graph", "dict"):
             return [], False
